@@ -188,6 +188,37 @@ func solveAll(obls []*Obligation, timeoutS int, all bool, workDir string) {
 		}(o)
 	}
 	wg.Wait()
+	// second chance for obligations that ran out of time (machine under load):
+	// a few at a time, three times the budget; an obligation is reported as
+	// failed only if it is still undecided then
+	var again []*Obligation
+	for _, o := range obls {
+		if o.Trivial || o.Failed || o.Script == "" || o.Expect != "unsat" {
+			continue
+		}
+		if (o.Result.Status == "timeout" || o.Result.Status == "error") && o.Cex.Status != "sat" {
+			again = append(again, o)
+		}
+	}
+	if len(again) > 24 {
+		again = again[:24]
+	}
+	sem2 := make(chan struct{}, 4)
+	for _, o := range again {
+		wg.Add(1)
+		go func(o *Obligation) {
+			defer wg.Done()
+			sem2 <- struct{}{}
+			defer func() { <-sem2 }()
+			file := filepath.Join(workDir, smtName(o.Name)+".retry.smt2")
+			r := Solve(o.Script, file, 3*timeoutS, all, false)
+			r.AllRuns = append(o.Result.AllRuns, r.AllRuns...)
+			if r.Status == "unsat" || r.Status == "sat" {
+				o.Result = r
+			}
+		}(o)
+	}
+	wg.Wait()
 }
 
 // cexScript drops every quantified assertion except the (negated) goal.
